@@ -24,6 +24,8 @@ void h_stepBy(void)              { struct IntegratorRep* s; Real a, b; Integrato
    class invariant / precondition cannot make the proof vacuous */
 void h_cover_stepTo(void) {
     struct IntegratorRep S; struct IntegratorRep* s = &S; Real r, e;
+    Real g1, g2; unsigned g3, g4; int g5, g6, g7;
+    ghost_t0 = g1; ghost_adv0 = g2; ghost_steps = g3; ghost_steps0 = g4; ghost_scs0 = g5; ghost_threw = g6; ghost_stepped = g7;   /* ghosts are free inputs */
     __CPROVER_assume(STEPTO_PRE(s, r, e));
     __CPROVER_cover(SCS(s) == CompletedInternalStepNoEvent);
     __CPROVER_cover(SCS(s) == CompletedInternalStepWithEvent && s->useInterpolatedState);
